@@ -9,6 +9,7 @@ package forwarder
 import (
 	"net"
 	"slices"
+	"strings"
 
 	"github.com/prometheus/client_golang/prometheus"
 	"github.com/prometheus/client_golang/prometheus/promauto"
@@ -90,7 +91,9 @@ func addr2Host(addr string) string {
 		return "localhost"
 	}
 
-	return host
+	// The host comes from the request target, it may be any byte string.
+	// A label value that is not valid UTF-8 makes the metrics library panic.
+	return strings.ToValidUTF8(host, "\uFFFD")
 }
 
 type listenerMetrics struct {
